@@ -36,6 +36,11 @@ def name_pool(rng):
     return base
 
 
+def wire_over_255_names():
+    """<= 253 characters but > 255 octets on the wire (multi-byte UTF-8): accepted by the builder, refused by a strict RFC 1035 decoder"""
+    return ['.'.join(['é' * 30] * 5) + '.local.', '.'.join(['日' * 20] * 5) + '._t._tcp.local.']
+
+
 def too_long_names():
     return ['n' * 64 + '.local.', 'é' * 32 + '.local.', 'x.' + 'o' * 65 + '._t._tcp.local.', 'o' * 200 + '.local.']
 
@@ -123,7 +128,26 @@ def boundary_messages(rng, names):
                     if query:
                         m['questions'].append(rec('KQuestion', '_t._tcp.local.', 12, 1))
                     out.append(m)
-    # exact-fit sweeps: find the filler for which the packet is exactly limit-1, limit, limit+1 bytes
+    # rollback x compression across sections: the entry that overflows is rolled back in one section, and a LATER section
+    # (which keeps writing into the same datagram) reuses its owner name / points at it
+    for limit in (1460,):
+        for delta in range(-3, 4):
+            for query in (False, True):
+                for mc in (True, False):
+                    m = dict(flags=0 if query else 0x8400, multicast=mc, id=7, questions=[], answers=[], authorities=[], additionals=[])
+                    if query:
+                        m['questions'].append(rec('KQuestion', '_t._tcp.local.', 12, 1))
+                    m['answers'].append((rec('KPointer', '_t._tcp.local.', 12, 1, alias='first._t._tcp.local.'), 0))
+                    big_name = 'printer-info._t._tcp.local.'
+                    m['answers'].append((rec('KText', big_name, 16, 0x8001, text=b''), 0))
+                    base = len(build_impl(m).packets()[0])          # exact size up to the end of the (still empty) TXT record
+                    m['answers'][1] = (rec('KText', big_name, 16, 0x8001, text=bytes([121]) * (limit - base + delta)), 0)
+                    m['answers'].append((rec('KAddress', 'later.local.', 1, 0x8001, address=b'\x01\x02\x03\x04'), 0))
+                    m['authorities'].append(rec('KPointer', '_t._tcp.local.', 12, 1, alias=big_name))
+                    m['additionals'].append(rec('KService', big_name, 33, 0x8001, port=80, server='printer-info.local.'))
+                    m['additionals'].append(rec('KAddress', 'printer-info.local.', 1, 0x8001, address=b'\x01\x02\x03\x05'))
+                    m['additionals'].append(rec('KText', big_name, 16, 0x8001, text=b'\x01z'))
+                    out.append(m)
     return out
 
 
@@ -278,6 +302,15 @@ def oracle(m, ps, exc, focus):
     return None
 
 
+def msg_tags(m, why):
+    tags = set()
+    names = [n for d in m['questions'] + [r for r, _ in m['answers']] + m['authorities'] + m['additionals'] for n in relevant_names(d)]
+    over = [n for n in names if len(n) <= 253 and len(n.encode('utf-8')) + 1 > 255]
+    if over and 'independent RFC 1035 decoder' in why and 'not well-formed' in why:
+        tags.add('wire_name_over_255')
+    return tags
+
+
 def jsonable(m):
     from props.c05 import jsonable as j
     return j(m)
@@ -306,9 +339,13 @@ def run(ctx, focus='C01'):
     for _ in range(6 if quick else 150):
         msgs.append(gen_message(rng, rng.sample(names, rng.randint(3, 12)), 'large'))
     bm = boundary_messages(rng, names)
-    msgs += bm if not quick else (bm if focus == 'C14' else rng.sample(bm, 40))
+    msgs += bm if (not quick or focus == 'C14') else (rng.sample(bm[:-28], 40) + bm[-28:])
     for _ in range(40 if quick else 400):
         msgs.append(gen_message(rng, rng.sample(names, 3) + [rng.choice(too_long_names())], 'small'))
+    for nm in wire_over_255_names():
+        msgs.append(dict(flags=0, multicast=True, id=0, questions=[rec('KQuestion', nm, 12, 1)], answers=[], authorities=[], additionals=[]))
+        msgs.append(dict(flags=0x8400, multicast=True, id=0, questions=[], answers=[(rec('KPointer', '_t._tcp.local.', 12, 1, alias=nm), 0)],
+                         authorities=[], additionals=[]))
     msgs.append(dict(flags=0, multicast=True, id=0, questions=[], answers=[], authorities=[], additionals=[]))
     ctx.log(f"{len(msgs)} messages")
     coq_cases, fails = [], []
@@ -329,8 +366,12 @@ def run(ctx, focus='C01'):
                        "over-long labels), all record kinds, TTL {0,1,119,120,4500,2^31,2^32-1}, answers added with a time, query/response x multicast/unicast "
                        "x id, section sizes 0..300, an entry swept so that the 1460/8966 limits fall at -3..+3 bytes on every section position; "
                        "distinct = distinct messages; non-trivial = at least one entry")
-    for m, why in fails[:3]:
-        ctx.violation({'kind': 'oracle', 'why': why, 'message': jsonable(m), 'broken': None if ok else ctx.build_msg})
+    n_reported = 0
+    for m, why in fails:
+        if n_reported >= 3:
+            break
+        if ctx.violation({'kind': 'oracle', 'why': why, 'message': jsonable(m), 'broken': None if ok else ctx.build_msg}, tags=msg_tags(m, why)):
+            n_reported += 1
     if not ok:
         if not ctx.violations:
             ctx.violation({'kind': 'broken-obligation', 'broken': ctx.build_msg}, no_input=True)
